@@ -230,6 +230,15 @@ def main():
     os.makedirs(WORK, exist_ok=True)
     lock = open(os.path.join(WORK, ".lock"), "w")
     fcntl.flock(lock, fcntl.LOCK_EX)
+    # development aid (bin/try_seeded): apply a seeded change to /repo while the lock is held, undo it on exit;
+    # evidence of such a run goes to work/, never to evidence/
+    try_patch = os.environ.get("VERIF_TRY_PATCH")
+    if try_patch:
+        import atexit
+        if subprocess.call(["git", "-C", REPO, "apply", try_patch]) != 0:
+            print("patch does not apply")
+            return 3
+        atexit.register(lambda: subprocess.call(["git", "-C", REPO, "apply", "-R", try_patch]))
     t0 = time.time()
     log, broken = [], []
     outdir = os.path.join(WORK, pid if not replay else pid + "_replay")
@@ -398,8 +407,9 @@ def main():
         "violations": len(violations),
     }
     if not replay:
-        os.makedirs(os.path.join(VERIF, "evidence"), exist_ok=True)
-        json.dump(ev, open(os.path.join(VERIF, "evidence", pid + ".json"), "w"), indent=1, default=str)
+        evdir = os.path.join(VERIF, "evidence") if not os.environ.get("VERIF_TRY_PATCH") else os.path.join(WORK, "evidence_seeded")
+        os.makedirs(evdir, exist_ok=True)
+        json.dump(ev, open(os.path.join(evdir, pid + ".json"), "w"), indent=1, default=str)
     for cls in sorted(set(known_lines)):
         print("KNOWN-FINDING: property=%s %s: %s" % (pid, known[cls].get("id", cls), known[cls].get("what", "")))
     print("%s %s: theorems=%d examples=%d proofs_ok=%s cases=%d k1_mismatch=%d k2_mismatch=%d deviations=%s direct=%d wall=%.1fs" %
